@@ -19,10 +19,10 @@
   * `invalidate_then_read`, `reset_empty`
   * the witnesses of the four repaired findings, evaluated on the model (`fixed_F10` … `fixed_F23`)
 
-  What is only STATED (full-strength `def … : Prop`, not proved; it rests on the correspondence check
-  and its map oracle alone): `varbytes_roundtrip`, `record_roundtrip` (with content types),
-  `cache_refines_map` (every op sequence incl. compaction), `reopen_refines`,
-  `truncated_prefix_serves_complete`.
+  The full-strength statements `varbytes_roundtrip`, `record_roundtrip` (with content types),
+  `cache_refines_map` (every op sequence incl. compaction and reopen), `reopen_refines`,
+  `truncated_prefix_serves_complete` are stated below as `def … : Prop` and PROVED in
+  Pk/Props/C15Full.lean (`…_holds`; helper lemmas Pk/Proofs/CacheFile{VarBytes,Cts,Skip,Inv,Compact,Open,Full}.lean).
 -/
 import Pk.Model.CacheFile
 import Pk.Proofs.CacheFile
@@ -73,7 +73,7 @@ theorem times_within_microsecond : ∀ (cs : List Chunk) (last : Int), AllClose 
     · have := (time_error (c.time - last)).1; simp only; omega
     · have := (time_error (c.time - last)).2; simp only; omega
 
-/-- FULL statement (not proved): content-type bitmasks -/
+/-- FULL statement (proved: `varbytes_roundtrip_holds`): content-type bitmasks -/
 def varbytes_roundtrip : Prop :=
   ∀ (data rest : List Nat), (∀ b ∈ data, b < 256) → readVarBytes (writeVarBytes data ++ rest) = some (data, rest)
 
@@ -81,7 +81,7 @@ def varbytes_roundtrip : Prop :=
 def expected (cs : List Chunk) (t0 : Int) : List Chunk :=
   List.zipWith (fun (r c : Chunk) => { r with ctype := c.ctype }) (readBack cs t0) cs
 
-/-- FULL statement (not proved): records with content types on any subset of the chunks -/
+/-- FULL statement (proved: `record_roundtrip_holds`): records with content types on any subset of the chunks -/
 def record_roundtrip : Prop :=
   ∀ (cs : List Chunk) (t0 : Int), (∀ c ∈ cs, ChunkOk c ∧ c.ctype.length < 2 ^ 64 ∧ ∀ b ∈ c.ctype, b < 256) →
     TimesOk cs t0 →
@@ -138,7 +138,7 @@ theorem invalidate_then_read (st : St) (id : Nat) (t0 : Int) :
     data (invalidateOne st id).1 id t0 = some none ∧ contains (invalidateOne st id).1 id = false :=
   Pk.Proofs.CacheFile.invalidate_then_read st id t0
 
-/-! ### full statements that rest on the correspondence check alone (not proved) -/
+/-! ### full statements (proved in Pk/Props/C15Full.lean) -/
 
 /-- the map specification: latest store per id, removed by invalidate and reset -/
 def specStep (m : Nat → Option (List Chunk × Int)) : Op → Nat → Option (List Chunk × Int)
